@@ -131,13 +131,15 @@ def scenario(ck, trial, tier):
                         pending_mutants = [c for c in mutators.mutants(tg, par, rng) if c['expect'] == 'reject']
                         rng.shuffle(pending_mutants)
                         pending_mutants = pending_mutants[:6]
+                        for c_ in pending_mutants:
+                            c_['built_on'] = par        # the list outlives this step; `par` does not
                     if not pending_mutants:
                         continue
                     c = pending_mutants.pop()
                     blk, label, expect = c['block'], 'mutant:' + c['label'], 'reject'
                     net.clock.t = max(net.clock.t, c['now'])
                     if c['label'].startswith('time-31s'):
-                        future_again.append((c['block'], par))
+                        future_again.append((c['block'], c['built_on']))
                 bv = spec.BlockView(blk)
                 net.clock.t = max(net.clock.t, bv.time + 1)
                 if label.startswith('mutant:time-31s'):
